@@ -130,6 +130,8 @@ type Obligation struct {
 	ExpectSat bool
 	// lemma proofs may only use earlier lemmas
 	LemmaIdx int
+	// call-site consistency probe: PrePC is the path condition before the callee's ensures
+	PrePC []*Term
 
 	// results
 	Status string // unsat, sat, unknown, timeout, error
